@@ -105,3 +105,9 @@ Definition decorator_table : list (string * option opk) := [
   ("write"%string, None)
 ].
 Definition group_agg_kind : option opk := Some SELECT.
+(* environment: a sort key written as SQL text and parsed with the session's input dialect (Spark) gets Spark's default NULL placement: ASC -> NULLS FIRST, DESC -> NULLS LAST *)
+Definition spark_text_nulls_first (desc : bool) : bool := negb desc.
+Definition order_flag_desc (asc : bool) : bool := (negb asc).
+Definition order_flag_nulls_first (asc : bool) : bool := (spark_text_nulls_first (negb asc)).
+Definition order_default_asc : bool := true.
+Definition column_order_methods : list (string * (bool * bool)) := [("asc"%string, (false, true)); ("asc_nulls_first"%string, (false, true)); ("asc_nulls_last"%string, (false, false)); ("desc"%string, (true, false)); ("desc_nulls_first"%string, (true, true)); ("desc_nulls_last"%string, (true, false))].
